@@ -25,7 +25,7 @@ class Contract:
                  raises_unchanged=True, frame=None, pure=False, returns=None, loops=(), total=True,
                  props=(), hooks=None, locals=None, defaults=None, is_property=False,
                  uf_params=None, assumed=False, note="", ghost=None, exc_props=None,
-                 stop_ensures=(), bounded=()):
+                 stop_ensures=(), bounded=(), globals=None):
         self.name = name
         self.short = name.split(".")[-1]
         self.params = OrderedDict(params)     # name -> type descriptor
@@ -51,6 +51,7 @@ class Contract:
         self.exc_props = exc_props or {}
         self.stop_ensures = list(stop_ensures)
         self.bounded = list(bounded)
+        self.globals = dict(globals or {})   # module-level names the function reads -> expression
 
     def default_value(self, nm, engine):
         from .engine import State
@@ -97,6 +98,7 @@ class Registry:
         self.assumption_notes = []
         self._ghost = {}
         self._ghost_trees = {}
+        self.aliases = {}
         self.z3_definitions = {}     # spec function -> [(label, formula)]: definitional axioms
         self.z3_lemmas = {}          # spec function -> [(label, formula)]: proved by induction
 
@@ -123,9 +125,16 @@ class Registry:
             sorts = []
             for p in c.uf_params:
                 sorts.append(self.sort_of(c.params[p]))
-            c.uf = z3.Function("F_" + c.name.replace(".", "_").replace("<", "").replace(">", ""),
-                               *(sorts + [self.sort_of(c.returns)]))
+            base = "F_" + c.name.replace(".", "_").replace("<", "").replace(">", "").replace("#", "_")
+            if isinstance(c.returns, tuple) and c.returns[0] == "tuple":
+                c.uf = [z3.Function("%s_%d" % (base, i), *(sorts + [self.sort_of(t)]))
+                        for i, t in enumerate(c.returns[1])]
+            else:
+                c.uf = z3.Function(base, *(sorts + [self.sort_of(c.returns)]))
         return c
+
+    def alias(self, simple, contract_name):
+        self.aliases[simple] = contract_name
 
     def sort_of(self, ty):
         if ty in ("int", "nat", "storage", "steptype", "str"):
@@ -188,6 +197,8 @@ class Registry:
         return spec.bases[0]
 
     def function_contract(self, simple, fi):
+        if simple in self.aliases:
+            return self.contracts[self.aliases[simple]]
         cands = [c for n, c in self.contracts.items()
                  if n.split(".")[-1] == simple and c.self_class is None]
         if not cands:
